@@ -20,6 +20,16 @@
      gcm  d2 <key> <iv12> <aad> <ct> <tag> <splits> <al> <ip>            -> ok <pt> | authfail            (psAesDecryptGCM2)
      gcmr <key> <iv1> <pt1> <taglen1> <iv2> <aad2> <pt2>                 -> <ct2> <tag2>   one context, second message after a (possibly truncated) first tag
      gcmz <key> <iv12> <total> <chunk>                                   -> <tag16>   <total> zero ciphertext bytes, no AAD, through psAesDecryptGCMtagless in <chunk>-byte calls
+     des3 <e|d> <key24> <iv8> <data> <splits> <al> <ip>                  -> <out>      psDes3Init + psDes3Encrypt / psDes3Decrypt calls
+     m5s1 <msg> <splits> <al>                                            -> <md5||sha1>  psMd5Sha1Init/Update/Final
+     aesb <e|d> <key> <blk16> <al> <ip>                                  -> <out>      psAesInitBlockKey + psAesEncryptBlock / psAesDecryptBlock
+     pb1  <pass> <salt8>                                                 -> <key24>    psPkcs5Pbkdf1 (iter = 1)
+     sa2  <msg> <al>                                                     -> <digest>   psSha256Standalone
+     s5s  <msg> <al>                                                     -> <digest>   psSha512Single
+     hsg  <sha256|sha384|sha512|md5> <msg> <splits>                      -> <digest> | rc=<n>   psHashInit/Update/Final (OID-selected)
+     hm0  <sha256|sha1|sha384|md5> <key> <msg>                           -> <mac>      psHmacSingle
+     chpd e <key32> <nonce12> <aad> <pt> <al> <ip>                       -> <ct> <tag>   detached API
+     chpd d <key32> <nonce12> <aad> <ct> <tag16> <al> <ip>               -> ok <pt> | authfail | rc=<n>
      chp  e <key32> <nonce12> <aad> <pt> <al> <ip>                       -> <ct||tag>
      chp  d <key32> <nonce12> <aad> <ct||tag> <al> <ip>                  -> ok <pt> | authfail | rc=<n>
 
@@ -245,6 +255,105 @@ static void do_case(void)
         }
         psAesGetGCMTag(&c, 16, tag);
         puthex(tag, 16); printf("\n");
+    } else if (!strcmp(op, "des3") && g_ntok == 8) {
+        int enc = g_tok[1][0] == 'e';
+        unsigned char *key, *iv, *d0; size_t kl = unhex(g_tok[2], &key), ivl = unhex(g_tok[3], &iv), dl = unhex(g_tok[4], &d0);
+        int al = atoi(g_tok[6]) & 15, ip = atoi(g_tok[7]);
+        if (kl != DES3_KEYLEN || ivl != DES3_IVLEN || (dl & 7)) { printf("BADCASE\n"); return; }
+        unsigned char *in = aligned_copy(d0, dl, al, 0);
+        unsigned char *out = ip ? in : aligned_copy(d0, 0, (al * 5 + 3) & 15, dl);
+        int ns = parse_splits(g_tok[5], dl, g_spl, MAXSPL);
+        psDes3_t c; size_t off = 0;
+        int32_t rc = psDes3Init(&c, iv, key);
+        if (rc < 0) { printf("rc=%d\n", -rc); return; }
+        for (int i = 0; i < ns; i++) {
+            if (g_spl[i] & 7) { printf("BADCASE\n"); return; }
+            if (enc) psDes3Encrypt(&c, in + off, out + off, (uint32_t) g_spl[i]);
+            else psDes3Decrypt(&c, in + off, out + off, (uint32_t) g_spl[i]);
+            off += g_spl[i];
+        }
+        puthex(out, dl); printf("\n");
+    } else if (!strcmp(op, "m5s1") && g_ntok == 4) {
+        unsigned char *m0; size_t ml = unhex(g_tok[1], &m0);
+        int al = atoi(g_tok[3]) & 15;
+        unsigned char *m = aligned_copy(m0, ml, al, 0);
+        int ns = parse_splits(g_tok[2], ml, g_spl, MAXSPL);
+        unsigned char out[MD5SHA1_HASHLEN + 16]; size_t off = 0; psMd5Sha1_t c;
+        psMd5Sha1PreInit(&c);
+        if (psMd5Sha1Init(&c) < 0) { printf("rc=init\n"); return; }
+        for (int i = 0; i < ns; i++) { psMd5Sha1Update(&c, m + off, (uint32_t) g_spl[i]); off += g_spl[i]; }
+        psMd5Sha1Final(&c, out);
+        puthex(out, MD5SHA1_HASHLEN); printf("\n");
+    } else if (!strcmp(op, "aesb") && g_ntok == 6) {
+        int enc = g_tok[1][0] == 'e';
+        unsigned char *key, *b0; size_t kl = unhex(g_tok[2], &key), bl = unhex(g_tok[3], &b0);
+        int al = atoi(g_tok[4]) & 15, ip = atoi(g_tok[5]);
+        if (bl != 16) { printf("BADCASE\n"); return; }
+        unsigned char *in = aligned_copy(b0, 16, al, 0);
+        unsigned char *out = ip ? in : aligned_copy(b0, 0, (al * 5 + 3) & 15, 16);
+        psAesKey_t k;
+        int32_t rc = psAesInitBlockKey(&k, key, (uint8_t) kl, enc ? PS_AES_ENCRYPT : PS_AES_DECRYPT);
+        if (rc < 0) { printf("rc=badkey\n"); return; }          /* which negative code is not part of the property */
+        if (enc) psAesEncryptBlock(&k, in, out); else psAesDecryptBlock(&k, in, out);
+        puthex(out, 16); printf("\n");
+    } else if (!strcmp(op, "pb1") && g_ntok == 3) {
+        unsigned char *pw, *salt; size_t pl = unhex(g_tok[1], &pw), sl = unhex(g_tok[2], &salt);
+        unsigned char key[24 + 16]; memset(key, 0xA5, sizeof(key));
+        if (sl != 8) { printf("BADCASE\n"); return; }
+        int32_t rc = psPkcs5Pbkdf1(pw, (uint32) pl, salt, 1, key);
+        if (rc < 0) { printf("rc=%d\n", -rc); return; }
+        for (int i = 24; i < 40; i++) if (key[i] != 0xA5) { printf("OVERRUN\n"); return; }
+        puthex(key, 24); printf("\n");
+    } else if (!strcmp(op, "sa2") && g_ntok == 3) {
+        unsigned char *m0; size_t ml = unhex(g_tok[1], &m0);
+        unsigned char *m = aligned_copy(m0, ml, atoi(g_tok[2]) & 15, 0); unsigned char out[32];
+        psSha256Standalone(m, (uint32_t) ml, out);
+        puthex(out, 32); printf("\n");
+    } else if (!strcmp(op, "s5s") && g_ntok == 3) {
+        unsigned char *m0; size_t ml = unhex(g_tok[1], &m0);
+        unsigned char *m = aligned_copy(m0, ml, atoi(g_tok[2]) & 15, 0); unsigned char out[64];
+        psSha512Single(m, (uint32_t) ml, out);
+        puthex(out, 64); printf("\n");
+    } else if (!strcmp(op, "hsg") && g_ntok == 4) {
+        int id = alg_id(g_tok[1]); unsigned char *m; size_t ml = unhex(g_tok[2], &m);
+        int ns = parse_splits(g_tok[3], ml, g_spl, MAXSPL);
+        int32_t oid = id == 256 ? OID_SHA256_ALG : id == 384 ? OID_SHA384_ALG : id == 512 ? OID_SHA512_ALG : id == 5 ? OID_MD5_ALG : 0;
+        size_t hl = id == 256 ? 32 : id == 384 ? 48 : 64, off = 0;
+        psDigestContext_t c; unsigned char out[64 + 16];
+        psRes_t rc = psHashInit(&c, oid, NULL);
+        if (rc < 0) { printf("rc=%d\n", (int) -rc); return; }
+        for (int i = 0; i < ns; i++) { psHashUpdate(&c, m + off, g_spl[i]); off += g_spl[i]; }
+        psHashFinal(&c, out);
+        puthex(out, hl); printf("\n");
+    } else if (!strcmp(op, "hm0") && g_ntok == 4) {
+        int id = alg_id(g_tok[1]); unsigned char *k, *m; size_t kl = unhex(g_tok[2], &k), ml = unhex(g_tok[3], &m);
+        size_t hl = id == 256 ? 32 : id == 1 ? 20 : id == 384 ? 48 : 16;
+        psHmac_t c; unsigned char out[MAX_HASHLEN + 16];
+        int32_t rc = psHmacSingle(&c, hmac_type(id), k, (psSize_t) kl, m, ml, out);
+        if (rc < 0) { printf("rc=%d\n", -rc); return; }
+        puthex(out, hl); printf("\n");
+    } else if (!strcmp(op, "chpd") && (g_ntok == 8 || g_ntok == 9)) {
+        int enc = g_tok[1][0] == 'e';
+        if ((enc && g_ntok != 8) || (!enc && g_ntok != 9)) { printf("BADCASE\n"); return; }
+        unsigned char *key, *nonce, *aad0, *d0, *tag0 = NULL; size_t kl = unhex(g_tok[2], &key), nl = unhex(g_tok[3], &nonce), al_ = unhex(g_tok[4], &aad0), dl = unhex(g_tok[5], &d0);
+        size_t tl = enc ? 0 : unhex(g_tok[6], &tag0);
+        int al = atoi(g_tok[enc ? 6 : 7]) & 15, ip = atoi(g_tok[enc ? 7 : 8]);
+        if (kl != 32 || nl != 12 || (!enc && tl != 16)) { printf("BADCASE\n"); return; }
+        unsigned char *aad = aligned_copy(aad0, al_, (al * 3 + 1) & 15, 0);
+        unsigned char *in = aligned_copy(d0, dl, al, 16);
+        unsigned char *out = ip ? in : aligned_copy(d0, 0, (al * 5 + 3) & 15, dl + 16);
+        psChacha20Poly1305Ietf_t c; unsigned char tag[16];
+        if (psChacha20Poly1305IetfInit(&c, key) < 0) { printf("rc=init\n"); return; }
+        if (enc) {
+            psResSize_t r = psChacha20Poly1305IetfEncryptDetached(&c, in, dl, nonce, aad, (psSize_t) al_, out, tag);
+            if (r < 0) { printf("rc=%d\n", (int) -r); return; }
+            puthex(out, dl); printf(" "); puthex(tag, 16); printf("\n");
+        } else {
+            psResSize_t r = psChacha20Poly1305IetfDecryptDetached(&c, in, dl, nonce, aad, al_, tag0, out);
+            if (r == PS_AUTH_FAIL) printf("authfail\n");
+            else if (r < 0) printf("rc=%d\n", (int) -r);
+            else { printf("ok "); puthex(out, (size_t) r); printf("\n"); }
+        }
     } else if (!strcmp(op, "chp") && g_ntok == 8) {
         int enc = g_tok[1][0] == 'e';
         unsigned char *key, *nonce, *aad0, *d0; size_t kl = unhex(g_tok[2], &key), nl = unhex(g_tok[3], &nonce), al_ = unhex(g_tok[4], &aad0), dl = unhex(g_tok[5], &d0);
